@@ -13,6 +13,7 @@ from ..rat import rat, frac, rat_opt, round_once_eq, tol_eq
 from ..symtrace import Sym, Untraceable
 from .. import leanio
 from .. import gen_geom
+from .. import c10_hist
 
 PROPERTY = "C10"
 LEAN_MODULE = "Proofs.C10"
@@ -52,6 +53,11 @@ THEOREMS = [_T + n for n in [
     "C10_export_spans_segment", "C10_export_spans_bbox", "C10_import_annotation_load_nopath",
     "C10_import_annotation_load", "C10_roundtrip_label_select", "C10_label_roundtrip_cases",
     "C10_roundtrip_of_label_roundtrip",
+    # follow-up (histories and construction paths): the store semantics of returned tags is the value semantics;
+    # a positional call binds the table's parameters in order
+    "C10_history_value_semantics", "C10_history_call_pure", "C10_history_results_kept", "C10_history_edit_local",
+    "C10_history_value_is_label", "C10_signatures_wellformed", "C10_positional_split", "C10_positional_lookup",
+    "C10_positional_too_many",
 ]]
 LEVEL_TEXT = ("Lean theorems over the model of the five crowsetta modules hold for all rational inputs and all option "
               "records: the expansion factor is applied exactly once on import (onset/te, sample/samplerate, f*te), import "
@@ -65,25 +71,53 @@ LEVEL_TEXT = ("Lean theorems over the model of the five crowsetta modules hold f
               "and the segment export (seconds and the arguments of int()) for every geometry type x switch combination by "
               "path-exhaustive symbolic tracing proved equal to the model for all inputs, both cascades by exhaustive "
               "enumeration of the abstracted option space incl. falsy values, numeric behaviour on dyadic grids through real "
-              "crowsetta objects (floats, ints, numpy scalars) and a real WAV file for the recording=None path.")
+              "crowsetta objects (floats, ints, numpy scalars) and a real WAV file for the recording=None path.  Histories: the "
+              "store semantics of consecutive imports (every tag the cascade builds is a fresh mutable object, callers edit "
+              "returned tags in place) is proved equal to the value semantics (calls are pure functions of their own arguments, "
+              "edits are local to the edited result), and is observed event by event on the real objects; every converter is "
+              "also run through sequences of calls on shared, reused and changed argument objects with poisoned results, each "
+              "step judged by the base operation's model.  Positional calls: the positional parameter order of the eleven "
+              "public converters is a Lean table re-extracted from the signatures on every run; binding any split between "
+              "positional and keyword passing is proved to be the keyword call, and every split is exercised.")
 LEVEL_NOTE = ("Trusted: Lean kernel, symbolic tracer and its stubs (data constructors, crowsetta.Segment, compute_bounds, label "
               "functions, the int()/math.floor hook), shapely bounds, pydantic parsing, crowsetta's classes (BBox validators are "
               "modelled and traced), Recording.from_file (a parameter of the model; its contract path/time_expansion is "
               "evaluated on every call). Unmodelled: binary64 rounding of time/te, sample/(samplerate/te) and time*samplerate "
               "off the dyadic grid (compared round-once / with tolerance; probed by the free-mode round-trip monitor), "
               "ZeroDivisionError for a zero samplerate or expansion factor, the crowsetta != 4 constructor branch of "
-              "create_crowsetta_segment (not importable with the installed crowsetta).")
-TECHNIQUE = ("Lean 4 proof over model; defaults and symbolic-trace equality obligations regenerated from source; exhaustive "
-             "option-space and dyadic-grid correspondence; round-trip monitor on real crowsetta objects")
+              "create_crowsetta_segment (not importable with the installed crowsetta). Histories are finite samples of call "
+              "sequences (the theorem is about the model's store; the code's freshness of returned objects is observed, not "
+              "proved); each history starts from re-initialised converter modules so that a failing history is a self-contained "
+              "replay (confirmed in a fresh interpreter when one fails); tags returned from tag_fn / tag_mapping are the "
+              "caller's own objects and outside the store model.")
+TECHNIQUE = ("Lean 4 proof over model; defaults, positional signatures and symbolic-trace equality obligations regenerated from "
+             "source; exhaustive option-space and dyadic-grid correspondence; round-trip monitor on real crowsetta objects; "
+             "call histories on shared objects judged step by step by the model, store semantics of returned tags proved and observed")
 RULE = ("exhaustive option tables of label_to_tags / label_from_tag(s); segments, boxes, sequences and annotations on dyadic "
         "grids with power-of-two and decimal sample rates / expansion factors; all nine geometry types x cast switches; "
-        "non-trivial = the implementation returned a value (not an error); distinct = distinct (operation, input)")
+        "histories: x, a neighbour of x (same objects with another option / recording / switch, revised content under the same "
+        "uuid, the same callable with a changed table, a sibling converter on the same label), x again, with the live argument "
+        "objects reused unchanged / assigned to / edited in place / model_copy(update) shallow and deep / copy.copy + assignment, "
+        "arguments snapshotted around every call, results poisoned in place and earlier results re-read after later calls; tag "
+        "histories (import, in-place edit of a returned tag, import again) for every ordered pair of the six import routes; every "
+        "converter with every split between positional and keyword arguments; numbers as float / int / numpy float64 / float32 / "
+        "int64 / int32, recordings and annotations built by constructor / model_validate / JSON / model_copy / AOEF save+load, "
+        "coordinates as tuples, mappings as dict / reversed / OrderedDict / subclass / mappingproxy, sequences by from_segments / "
+        "from_keyword / from_dict, annotation stand-ins with __slots__ / properties / class attributes / dataclass / namedtuple, the "
+        "same object listed twice; every exporter x switch combination x 16 classes of sound event, every importer x label option "
+        "record x label; expansion factors 1 +- 2^-k and 1 +- 1e-6..1e-12, upper frequencies at Nyquist x (1 +- 1e-6..1e-12) and "
+        "+- 1 ulp, every point of eight non-dyadic time lattices, lists of 16/17/256/257/1024/1025 entries; "
+        "non-trivial = the implementation returned a value (not an error); for a history: some step did; distinct = distinct "
+        "(operation, input)")
 TRUSTED = ["shapely `bounds` inside compute_bounds", "pydantic parsing of floats and the geometry validators (modelled: mkInterval, mkBox)",
            "crowsetta.Segment / BBox / Sequence / Annotation (BBox validators modelled as mkBBox and traced symbolically)",
            "Recording.from_file / media info of a WAV file (contract: path and time_expansion as requested, evaluated per call)",
            "symbolic tracer stubs: soundevent.data constructors and crowsetta.Segment record their arguments, label functions "
            "return constants, compute_bounds returns a symbolic 4-tuple (the interval's own coordinates for a TimeInterval), "
-           "int()/math.floor of a symbolic product is recorded (Python's truncation = pyInt; floor agrees for times >= 0)"]
+           "int()/math.floor of a symbolic product is recorded (Python's truncation = pyInt; floor agrees for times >= 0)",
+           "importlib.reload of the five converter modules between histories (module state re-initialised as in a new interpreter)",
+           "soundevent.io save / load as a constructor of input objects (AOEF path; falls back to the caller-built objects if the "
+           "loaded ones differ in what the converters read)"]
 ASSUMPTIONS = ["samplerate > 0 and time_expansion > 0 (ZeroDivisionError otherwise, outside the model)",
                "binary64 arithmetic is exact on the dyadic grids used; one correctly rounded operation in round-once mode",
                "ordered-field semantics for the symbolic ties (no rounding)",
@@ -91,7 +125,13 @@ ASSUMPTIONS = ["samplerate > 0 and time_expansion > 0 (ZeroDivisionError otherwi
 NOT_COMPARED = ["error messages (only the error class)",
                 "uuids, notes, created_by, clip tags and the clip of the resulting ClipAnnotation (passed in a share of the cases so "
                 "that every branch runs; the property does not pin them)",
-                "sample indices in free mode (arbitrary floats): `int(t * samplerate)` rounds the product, the rational model cannot"]
+                "sample indices in free mode (arbitrary floats): `int(t * samplerate)` rounds the product, the rational model cannot",
+                "the identity of tags that come from `tag_fn` / `tag_mapping` (they are the caller's own objects, handed back as they "
+                "are: histories neither poison them nor demand copies)",
+                "tags of annotations rebuilt through pydantic's own dump -> validate: replaced by the harness-built tags (a "
+                "`data.Term` does not survive that path unchanged - `type_of_term` / `term_range` validate only under their aliases - "
+                "which is a matter of the data model; tags loaded through soundevent.io do compare equal and are used as they are)",
+                "which exception a positional call with too many arguments raises beyond its class (TypeError)"]
 
 NS = types.SimpleNamespace
 MAXF = 5_000_000
@@ -151,15 +191,15 @@ def _res_str(r):
 
 
 def _mk_fn(fj, canon, res):
-    table = fj["table"]
-    default = fj["default"]
-
+    """a user function given by a finite table; the table is read at call time from `fn.spec`, so that a history can
+    keep the same callable object and change its behaviour between calls"""
     def fn(x):
         cx = canon(x)
-        for k, v in table:
+        for k, v in fn.spec["table"]:
             if k == cx:
                 return res(v)
-        return res(default)
+        return res(fn.spec["default"])
+    fn.spec = fj
     return fn
 
 
@@ -182,7 +222,29 @@ def _label_kwargs(o):
         kw["fallback"] = o["fallback"]
     if o.get("empty_labels") is not None:
         kw["empty_labels"] = list(o["empty_labels"])
-    return kw
+    return _containers(kw, o.get("_kw"))
+
+
+class _Dict(dict):
+    """a dict subclass (mappings are annotated `Dict[...]`: any dict is a legitimate argument)"""
+
+
+def _containers(kw, kind):
+    """the same options in other legitimate containers: reversed insertion order (of the mappings and of the keyword
+    arguments), OrderedDict, a dict subclass, a read-only mapping proxy; `empty_labels` as a tuple"""
+    if not kind:
+        return kw
+    from collections import OrderedDict
+    out = {}
+    for k, v in kw.items():
+        if isinstance(v, dict):
+            items = list(v.items())
+            v = {"reversed": lambda: dict(reversed(items)), "odict": lambda: OrderedDict(items),
+                 "proxy": lambda: types.MappingProxyType(dict(items)), "subclass": lambda: _Dict(items)}[kind]()
+        elif k == "empty_labels" and kind in ("proxy", "odict"):
+            v = tuple(v)
+        out[k] = v
+    return dict(reversed(list(out.items()))) if kind == "reversed" else out
 
 
 def _tag_kwargs(o):
@@ -194,7 +256,7 @@ def _tag_kwargs(o):
         kw["label_mapping"] = {_tag(k): v for k, v in o["label_mapping"]}
     if o.get("value_only") is not None:
         kw["value_only"] = o["value_only"]
-    return kw
+    return _containers(kw, o.get("_kw"))
 
 
 def _tags_kwargs(o):
@@ -205,7 +267,10 @@ def _tags_kwargs(o):
     for k in ("select_by_key", "index", "separator", "empty_label"):
         if o.get(k) is not None:
             kw[k] = o[k]
-    return kw
+    if o.get("index") is not None and o.get("_kw") == "proxy":
+        import numpy as np
+        kw["index"] = np.int64(o["index"])                      # an index as numpy hands it out
+    return dict(reversed(list(kw.items()))) if o.get("_kw") == "reversed" else kw
 
 
 def _fo(s, kind=None):
@@ -218,14 +283,18 @@ def _fo(s, kind=None):
     if kind == "np":
         import numpy as np
         return np.float64(float(q))
+    if kind == "f32":
+        import numpy as np
+        v = np.float32(float(q))
+        return v if Fraction(float(v)) == q else float(q)      # binary32 only where it holds the value exactly
     return float(q)
 
 
 def _io(n, kind=None):
-    if n is None or kind != "np":
+    if n is None or kind not in ("np", "f32"):
         return n
     import numpy as np
-    return np.int64(n)
+    return np.int64(n) if kind == "np" else np.int32(n)
 
 
 def _segment(j):
@@ -261,18 +330,86 @@ _RECS = {}
 
 def _rec(j):
     from soundevent import data
-    k = (j["samplerate"], j["te"], j.get("path") or "rec.wav")
+    build = j.get("build")
+    k = (j["samplerate"], j["te"], j.get("path") or "rec.wav", build)
     if k not in _RECS:
-        _RECS[k] = data.Recording(path=k[2], duration=1000.0, channels=1, samplerate=int(frac(k[0])),
-                                  time_expansion=float(frac(k[1])))
+        sr, te = int(frac(k[0])), float(frac(k[1]))
+        if build == "loose":                  # numbers as a caller may hold them: a numpy integer, an int-valued factor
+            import numpy as np
+            sr, te = np.int64(sr), (int(te) if te == int(te) else np.float64(te))
+        r = data.Recording(path=k[2], duration=1000.0, channels=1, samplerate=sr, time_expansion=te)
+        if build == "validate":
+            r = data.Recording.model_validate(r.model_dump())
+        elif build == "json":
+            r = data.Recording.model_validate_json(r.model_dump_json())
+        elif build == "copy":
+            r = r.model_copy(deep=True)
+        _RECS[k] = r
     return _RECS[k]
 
 
+REC_BUILDS = [None, None, None, "loose", "validate", "json", "copy"]
+
+
+def _tuples(c):
+    """coordinates as a caller may hold them: tuples instead of lists, Python ints where integral"""
+    if isinstance(c, list):
+        return tuple(_tuples(x) for x in c)
+    return int(c) if float(c).is_integer() else c
+
+
 def _ann(j, rec):
+    """a SoundEventAnnotation by the construction path `build`: the constructor (default), coordinates as tuples / ints,
+    through `model_validate` of the dumped dict, through JSON, a deep `model_copy`; `uuid`: the identity of the sound
+    event and of the annotation (two annotations of one list may share it while their content differs)"""
+    import uuid as _uuid
     from soundevent import data
-    g = None if j["geometry"] is None else gen_geom.to_data(j["geometry"])
-    return data.SoundEventAnnotation(sound_event=data.SoundEvent(geometry=g, recording=rec),
-                                     tags=[_tag(t) for t in j["tags"]])
+    build = j.get("build")
+    if j["geometry"] is None:
+        g = None
+    elif build == "tuples":
+        g = data.geometry_validate({"type": j["geometry"]["type"], "coordinates": _tuples(gen_geom.coords_float(j["geometry"]))}, mode="dict")
+    else:
+        g = gen_geom.to_data(j["geometry"])
+    ids = {} if j.get("uuid") is None else {"uuid": _uuid.UUID(j["uuid"])}
+    tags = [_tag(t) for t in j["tags"]]
+    a = data.SoundEventAnnotation(sound_event=data.SoundEvent(geometry=g, recording=rec, **ids),
+                                  tags=tuple(tags) if build == "tuples" else tags, **ids)
+    if build == "validate":
+        a = data.SoundEventAnnotation.model_validate(a.model_dump())
+        a.tags = tags
+    elif build == "json":
+        a = data.SoundEventAnnotation.model_validate_json(a.model_dump_json())
+        a.tags = tags
+    elif build == "copy":
+        a = a.model_copy(deep=True)
+    # (the tags stay the harness-built ones: pydantic's own dump -> validate of a `data.Term` is not the identity - the
+    #  fields `type_of_term` / `term_range` only validate under their aliases and come back as extras, so such a tag no
+    #  longer equals the tag it was dumped from; tags loaded through `soundevent.io` (AOEF) do.  That is a matter of the
+    #  data model, not of the crowsetta converters; the model of C10 keys tags by label / name / definition / value.)
+    return a
+
+
+ANN_BUILDS = [None, None, None, "tuples", "validate", "json", "copy"]
+
+
+def _anns(js, rec, share=False):
+    """the annotations of a list; with `share`, equal descriptions are one object (the same annotation listed twice)"""
+    if not share:
+        return [_ann(a, rec) for a in js]
+    return _shared(js, lambda a: _ann(a, rec))
+
+
+def _shared(js, build):
+    """one object per distinct description: equal descriptions are the *same* object listed twice"""
+    import json
+    memo, out = {}, []
+    for j in js:
+        k = json.dumps(j, sort_keys=True)
+        if k not in memo:
+            memo[k] = build(j)
+        out.append(memo[k])
+    return out
 
 
 def _ann_j(a):
@@ -286,17 +423,75 @@ def _crow(j):
     import crowsetta
     boxes = [_bbox(b) for b in j["bboxes"]]
     seqs = [crowsetta.Sequence.from_segments([_segment(s) for s in q]) for q in j["seqs"]]
+    if j.get("share"):                       # the same box / segment object listed twice where the descriptions are equal
+        boxes = _shared(j["bboxes"], _bbox)
+    if j.get("seq_build") and not j.get("stub"):
+        seqs = [_sequence(q, j["seq_build"]) for q in j["seqs"]]
     if j.get("stub"):
-        o = NS(notated_path=None if j["notated_path"] is None else __import__("pathlib").Path(j["notated_path"]))
+        attrs = {"notated_path": None if j["notated_path"] is None else __import__("pathlib").Path(j["notated_path"])}
         if boxes:
-            o.bboxes = boxes
+            attrs["bboxes"] = boxes
         if seqs:
-            o.seq = seqs if len(seqs) != 1 or j.get("as_list") else seqs[0]
-        return o
+            attrs["seq"] = seqs if len(seqs) != 1 or j.get("as_list") else seqs[0]
+        return _stand_in(j.get("stub_kind"), attrs)
     if seqs:
         assert len(seqs) == 1 and not boxes
         return crowsetta.Annotation(annot_path="annots.csv", notated_path=j["notated_path"], seq=seqs[0])
     return crowsetta.Annotation(annot_path="annots.csv", notated_path=j["notated_path"], bboxes=boxes)
+
+
+STUB_KINDS = ["ns", "slots", "prop", "classattr", "dataclass", "namedtuple"]
+
+
+def _stand_in(kind, attrs):
+    """an annotation-like object that is not a plain namespace (the converter reads `notated_path`, `bboxes`, `seq`
+    with getattr): __slots__, properties, class-level attributes, a dataclass, a namedtuple.  Kinds with a fixed set
+    of fields carry empty lists for what the annotation does not have (no boxes / no sequences)."""
+    if kind in (None, "ns"):
+        return NS(**attrs)
+    if kind == "slots":
+        cls = type("SlotAnnotation", (), {"__slots__": tuple(attrs)})
+        o = cls()
+        for k, v in attrs.items():
+            setattr(o, k, v)
+        return o
+    if kind == "prop":
+        cls = type("LazyAnnotation", (), {k: property(lambda self, k=k: self._d[k]) for k in attrs})
+        o = cls()
+        object.__setattr__(o, "_d", dict(attrs))
+        return o
+    if kind == "classattr":
+        return type("ClassAnnotation", (), dict(attrs))()
+    full = {"notated_path": attrs["notated_path"], "bboxes": attrs.get("bboxes", []), "seq": attrs.get("seq", [])}
+    if kind == "dataclass":
+        import dataclasses
+        cls = dataclasses.make_dataclass("DataAnnotation", list(full))
+        return cls(**full)
+    if kind == "namedtuple":
+        import collections
+        return collections.namedtuple("TupleAnnotation", list(full))(**full)
+    raise AssertionError(kind)
+
+
+def _sequence(segs, build=None):
+    """a crowsetta.Sequence by its three public constructors (the segments must then be given uniformly)"""
+    import crowsetta
+    seq = crowsetta.Sequence.from_segments([_segment(s) for s in segs])
+    if build == "dict" and segs:            # (crowsetta cannot rebuild an empty sequence from its dict)
+        return crowsetta.Sequence.from_dict(seq.as_dict())
+    if build == "keyword" and segs:
+        import numpy as np
+
+        def col(f, dt):
+            vals = [getattr(s, f) for s in seq.segments]
+            return None if any(v is None for v in vals) else np.asarray(vals, dtype=dt)
+        return crowsetta.Sequence.from_keyword(labels=np.asarray([s.label for s in seq.segments]), onsets_s=col("onset_s", float),
+                                               offsets_s=col("offset_s", float), onset_samples=col("onset_sample", int),
+                                               offset_samples=col("offset_sample", int))
+    return seq
+
+
+SEQ_BUILDS = [None, None, "dict", "keyword"]
 
 
 def _crow_j(a):
@@ -372,8 +567,11 @@ def _impl_import_bbox(inp):
 
 
 def _impl_import_sequence(inp):
-    import crowsetta
-    seq = crowsetta.Sequence.from_segments([_segment(s) for s in inp["segments"]])
+    if inp.get("share"):
+        import crowsetta
+        seq = crowsetta.Sequence.from_segments(_shared(inp["segments"], _segment))
+    else:
+        seq = _sequence(inp["segments"], inp.get("seq_build"))
     out = _cio().sequence_to_annotations(seq, _rec(inp["rec"]), adjust_time_expansion=inp["adjust"],
                                          **_label_kwargs(inp.get("opts")))
     assert isinstance(out, list)
@@ -436,8 +634,13 @@ def _impl_import_annotation_load(inp):
     kw = {}
     if _load_kwargs(inp) is not None:
         kw["recording_kwargs"] = _load_kwargs(inp)
+    ex = _extras(inp, clip=True)
+    before = (dict(kw.get("recording_kwargs") or {}), [len(ex.get(k) or []) for k in ("notes", "tags")])
     c = _cio().annotation_to_clip_annotation(_crow(crow), adjust_time_expansion=inp["adjust"], **kw,
-                                             **_extras(inp, clip=True), **_label_kwargs(inp.get("opts")))
+                                             **ex, **_label_kwargs(inp.get("opts")))
+    # the caller's own dict / lists are as they were (HISTORIES.md: an argument mutated by the call)
+    assert before == (dict(kw.get("recording_kwargs") or {}), [len(ex.get(k) or []) for k in ("notes", "tags")]), \
+        "annotation_to_clip_annotation changed recording_kwargs / notes / tags of its caller in place"
     return {"val": _clip_ann_j(c)}
 
 
@@ -458,8 +661,11 @@ def _to_model_load(inp):
 def _holds_load(ctx, inp, io):
     rec, path = _loaded(inp)
     te = 1.0 if inp.get("te") is None else float(frac(inp["te"]))
-    ctx.contract("Recording.from_file keeps path and time expansion", str(rec.path) == path and rec.time_expansion == te,
-                 inp, {"path": str(rec.path), "te": rec.time_expansion})
+    # the sample rate of the loaded recording is stated independently: the harness wrote the file (file_sr frames per
+    # second) and `from_file` documents samplerate = file samplerate x time expansion
+    ctx.contract("Recording.from_file keeps path and time expansion",
+                 str(rec.path) == path and rec.time_expansion == te and rec.samplerate == int(frac(inp["file_sr"]) * Fraction(te)),
+                 inp, {"path": str(rec.path), "te": rec.time_expansion, "samplerate": rec.samplerate})
     return None
 
 
@@ -488,14 +694,41 @@ def _impl_export_sequence(inp):
     if not inp.get("default_switches"):
         kw["cast_to_segment"] = inp["cast"]
         kw["ignore_errors"] = inp["ignore"]
-    seq = _cio().sequence_from_annotations([_ann(a, rec) for a in inp["anns"]], **kw)
+    anns = _anns(inp["anns"], rec, inp.get("share"))
+    seq = _cio().sequence_from_annotations(tuple(anns) if inp.get("as_tuple") else anns, **kw)
     return {"val": [_segment_j(s) for s in seq.segments]}
 
 
-def _clip_annotation(anns, rec):
+def _clip_annotation(anns, rec, share=False, build=None):
     from soundevent import data
-    return data.ClipAnnotation(clip=data.Clip(recording=rec, start_time=0, end_time=rec.duration),
-                               sound_events=[_ann(a, rec) for a in anns])
+    c = data.ClipAnnotation(clip=data.Clip(recording=rec, start_time=0, end_time=rec.duration), sound_events=_anns(anns, rec, share))
+    if build == "copy":
+        c = c.model_copy(deep=True)
+    elif build == "aoef":
+        c = _through_aoef(c)
+    return c
+
+
+_AOEF_N = [0]
+
+
+def _through_aoef(c):
+    """the clip annotation as `soundevent.io.load` hands it back after `soundevent.io.save` (objects built by the AOEF
+    adapters, not by the caller); falls back to the original when the file format does not keep what the converters read"""
+    from soundevent import data, io
+    _AOEF_N[0] += 1
+    path = os.path.join(leanio.run_dir(), f"c10_aoef_{_AOEF_N[0]}.json")
+    try:
+        io.save(data.AnnotationSet(clip_annotations=[c]), path)
+        back = io.load(path).clip_annotations[0]
+    finally:
+        try:
+            os.remove(path)
+        except OSError:
+            pass
+    same = (str(back.clip.recording.path) == str(c.clip.recording.path) and back.clip.recording.samplerate == c.clip.recording.samplerate
+            and [_ann_j(a) for a in back.sound_events] == [_ann_j(a) for a in c.sound_events])
+    return back if same else c
 
 
 def _impl_export_annotation(inp):
@@ -506,7 +739,8 @@ def _impl_export_annotation(inp):
         kw["cast_geometry"] = inp["cast"]
         if inp["fmt"] == "bbox":
             kw["raise_on_time_geometries"] = inp["raise_time"]
-    a = _cio().annotation_from_clip_annotation(_clip_annotation(inp["anns"], rec), "annots.csv", inp["fmt"], **kw)
+    a = _cio().annotation_from_clip_annotation(_clip_annotation(inp["anns"], rec, inp.get("share"), inp.get("clip_build")),
+                                               "annots.csv", inp["fmt"], **kw)
     return {"val": _crow_j(a)}
 
 
@@ -832,6 +1066,10 @@ OPS = {
     "roundtrip_sequence_free": Op("roundtrip_sequence_free", _impl_roundtrip_sequence, holds=_holds_rt_sequence,
                                   model_op="roundtrip_sequence", compare=_compare_free),
     "roundtrip_annotation": Op("roundtrip_annotation", _impl_roundtrip_annotation, holds=_holds_rt_annotation),
+    # histories and unusual passing (harness/c10_hist.py, HISTORIES.md)
+    "history": c10_hist.HISTORY,
+    "tag_history": c10_hist.TAG_HISTORY,
+    "positional": c10_hist.POSITIONAL,
 }
 
 
@@ -879,6 +1117,31 @@ def _defaults_obligation(ctx):
            "theorem defaults_agree : SE.Crowsetta.defaultsAgree = true := by decide\n"
            f"theorem optional_defaults_absent : {lean(bool(consistent))} = true := by decide\n")
     ctx.obligation("keyword_defaults", src, {"op": "defaults", "extracted": {k: repr(v) for k, v in ext.items()}})
+
+
+def _signatures_obligation(ctx):
+    """Tie 1: the positional-or-keyword parameters of the eleven public converters, in order, are the Lean table
+    `SE.Crowsetta.signatures` (parameters appended after the table's and keyword-only ones are free as long as
+    they are optional: they cannot change what a positional call in the table's order binds)"""
+    model = {e["fn"]: e["params"] for e in ctx.model("signatures", {})}
+    ext = c10_hist.signature_table()
+    rows, surplus_ok = [], True
+    for fn, params in model.items():
+        e = ext.get(fn)
+        if e is None:
+            rows.append((fn, []))
+            continue
+        rows.append((fn, e["positional"][:len(params)]))
+        surplus = set(e["positional"][len(params):]) | set(e["kwonly"])
+        surplus_ok = surplus_ok and not (surplus & set(e["required"]))
+
+    def lstr(x):
+        return '"' + x.replace("\\", "\\\\").replace('"', '\\"') + '"'
+    body = ", ".join("(%s, [%s])" % (lstr(fn), ", ".join(lstr(q) for q in ps)) for fn, ps in rows)
+    src = (f"def extractedSignatures : List (String × List String) := [{body}]\n"
+           "theorem signatures_tie : SE.Crowsetta.signatures.map (fun s => (s.fn, s.params)) = extractedSignatures := by decide\n"
+           f"theorem surplus_parameters_optional : {'true' if surplus_ok else 'false'} = true := by decide\n")
+    ctx.obligation("positional_signatures", src, {"op": "positional", "extracted": ext})
 
 
 # ====================================================================== tie 1b: symbolic traces
@@ -935,23 +1198,29 @@ class _IntArgs:
     is `pyInt` in the model; `math.floor` is accepted as well because the property pins floor(time * samplerate) and
     the two agree for the non-negative times of valid geometries (`C10_export_samples_floor`)"""
     BASE = 7_000_001
+    ALL = []          # sentinels are unique over the whole run: a (correct) cache of the code under test may hand back the
+    #                   integer it computed in an earlier trace for the very same symbolic arguments
 
     def __enter__(self):
-        self.args = []
         Sym.int_hook = self._hook
+        # symbols hash by identity while tracing, so that code which keeps what it computed in a dict keyed by its
+        # arguments can be traced (a lookup of the same symbols hits, any other one misses)
+        self._hash = Sym.__dict__.get("__hash__")
+        Sym.__hash__ = lambda s: id(s) >> 4
         return self
 
     def _hook(self, sym):
-        self.args.append(sym)
-        return self.BASE + len(self.args) - 1
+        self.ALL.append(sym)
+        return self.BASE + len(self.ALL) - 1
 
     def __exit__(self, *exc):
         Sym.int_hook = None
+        Sym.__hash__ = self._hash
         return False
 
     def arg_of(self, v):
-        if type(v) is int and self.BASE <= v < self.BASE + len(self.args):
-            return self.args[v - self.BASE]
+        if type(v) is int and self.BASE <= v < self.BASE + len(self.ALL):
+            return self.ALL[v - self.BASE]
         raise Untraceable("a sample index is not int(<time term>): %r" % (v,))
 
 
@@ -1238,7 +1507,7 @@ def gen_segment(rng, k=3, tmax=64, valid=0.85, seconds=None):
         if rng.random() < 0.5:
             seg["offset_s"] = None
     if rng.random() < 0.15:
-        seg["num"] = rng.choice(["int", "np"])      # Python ints / numpy scalars instead of floats
+        seg["num"] = rng.choice(["int", "np", "f32"])      # Python ints / numpy scalars instead of floats
     return seg
 
 
@@ -1248,7 +1517,7 @@ def gen_segments(rng, nmax, valid=0.97, mode=None):
     return [gen_segment(rng, valid=valid, seconds=mode) for _ in range(rng.randint(0, nmax))]
 
 
-def gen_bbox(rng, k=3, tmax=64, fmax=64):
+def gen_bbox(rng, k=3, tmax=64, fmax=64, f32=False):
     a, b = sorted([_grid(rng, 0, tmax, k), _grid(rng, 0, tmax, k)])
     if a == b:
         b = a + Fraction(1, 1 << k)
@@ -1261,7 +1530,9 @@ def gen_bbox(rng, k=3, tmax=64, fmax=64):
         lo = Fraction(0)
     box = {"onset": rat(a), "offset": rat(b), "low_freq": rat(lo), "high_freq": rat(hi), "label": rng.choice(LABELS)}
     if rng.random() < 0.2:
-        box["num"] = rng.choice(["int", "np"])       # crowsetta.BBox has no converters: ints / numpy scalars reach the converter
+        # crowsetta.BBox has no converters: ints / numpy scalars reach the converter (binary32 only where the arithmetic
+        # stays exact: power-of-two factors)
+        box["num"] = rng.choice(["int", "np", "f32"] if f32 else ["int", "np"])
     return box
 
 
@@ -1269,17 +1540,32 @@ def _extra(rng):
     return rng.choice([None, None, None, "user", "all"])
 
 
+KW_KINDS = ["reversed", "odict", "proxy", "subclass"]
+
+
+def _kwv(rng, opts, p=0.3):
+    """the same options, sometimes in another legitimate container / keyword order"""
+    if opts and rng.random() < p:
+        return {**opts, "_kw": rng.choice(KW_KINDS)}
+    return opts
+
+
+def _recv(rng, rec, p=1.0):
+    b = rng.choice(REC_BUILDS) if rng.random() < p else None
+    return {**rec, "build": b} if b else rec
+
+
 def gen_import_segment(rng, n, tes, srs, seconds=None):
     for _ in range(n):
-        yield {"segment": gen_segment(rng, seconds=seconds), "rec": {"samplerate": rng.choice(srs), "te": rng.choice(tes)},
-               "adjust": rng.random() < 0.7, "opts": rng.choice(LABEL_OPTS), "extras": _extra(rng)}
+        yield {"segment": gen_segment(rng, seconds=seconds), "rec": _recv(rng, {"samplerate": rng.choice(srs), "te": rng.choice(tes)}),
+               "adjust": rng.random() < 0.7, "opts": _kwv(rng, rng.choice(LABEL_OPTS)), "extras": _extra(rng)}
 
 
 def gen_import_bbox(rng, n, tes):
     for _ in range(n):
         fmax = rng.choice([64, 64, 1 << 20, MAXF])
-        yield {"bbox": gen_bbox(rng, fmax=fmax), "rec": {"samplerate": rng.choice(POW2_SR + INT_SR), "te": rng.choice(tes)},
-               "adjust": rng.random() < 0.7, "opts": rng.choice(LABEL_OPTS), "extras": _extra(rng)}
+        yield {"bbox": gen_bbox(rng, fmax=fmax, f32=tes is POW2_TE), "rec": _recv(rng, {"samplerate": rng.choice(POW2_SR + INT_SR), "te": rng.choice(tes)}),
+               "adjust": rng.random() < 0.7, "opts": _kwv(rng, rng.choice(LABEL_OPTS)), "extras": _extra(rng)}
 
 
 TAGS_OPTS = [None, None, {"value_only": True}, {"value_only": False}, {"select_by_key": "k1"}, {"select_by_key": "k1", "value_only": True},
@@ -1296,7 +1582,11 @@ def gen_ann(rng, ty=None, none_p=0.08, fmax=8):
         g = None
     else:
         g = gen_geom.gen_geometry(rng, ty, tmax=8, fmax=fmax, k=rng.choice([2, 3]))
-    return {"geometry": g, "tags": rng.choice(TAG_LISTS + [[TAG_A], [TAG_B]])}
+    a = {"geometry": g, "tags": rng.choice(TAG_LISTS + [[TAG_A], [TAG_B]])}
+    b = rng.choice(ANN_BUILDS)
+    if b:
+        a["build"] = b
+    return a
 
 
 EXPORT_SR = ["1", "2", "4", "7", "8", "10", "16", "100", "8000", "44100"]
@@ -1332,8 +1622,15 @@ def gen_export_sequence(rng, n, defaults):
     for _ in range(n):
         anns = [gen_ann(rng, rng.choice(["TimeInterval", "TimeInterval", None]), none_p=0.1) for _ in range(rng.randint(0, 5))]
         d = rng.random() < 0.1
+        if anns and rng.random() < 0.15:
+            anns.insert(rng.randrange(len(anns) + 1), rng.choice(anns))      # the same annotation listed twice
+        if len(anns) >= 2 and rng.random() < 0.15:                            # revised content under one uuid
+            u = "00000000-0000-4000-8000-%012d" % rng.randrange(10 ** 6)
+            i, j = rng.sample(range(len(anns)), 2)
+            anns[i], anns[j] = {**anns[i], "uuid": u}, {**anns[j], "uuid": u}
         yield {"anns": anns, "sr": rng.choice(EXPORT_SR), "cast": defaults["seq_cast"] if d else rng.random() < 0.5,
-               "ignore": defaults["seq_ignore"] if d else rng.random() < 0.5, "opts": rng.choice(TAGS_OPTS), "default_switches": d}
+               "ignore": defaults["seq_ignore"] if d else rng.random() < 0.5, "opts": _kwv(rng, rng.choice(TAGS_OPTS)), "default_switches": d,
+               "share": rng.random() < 0.5, "as_tuple": rng.random() < 0.3}
 
 
 def gen_export_annotation(rng, n, defaults):
@@ -1342,29 +1639,48 @@ def gen_export_annotation(rng, n, defaults):
         pool = ["BoundingBox", "BoundingBox", None] if fmt == "bbox" else ["TimeInterval", "TimeInterval", None]
         anns = [gen_ann(rng, rng.choice(pool), none_p=0.1) for _ in range(rng.randint(0, 5))]
         d = rng.random() < 0.15
-        yield {"anns": anns, "fmt": fmt, "rec": {"samplerate": rng.choice(EXPORT_SR), "te": rng.choice(["1", "2"]), "path": "rec.wav"},
+        if anns and rng.random() < 0.15:
+            anns.insert(rng.randrange(len(anns) + 1), rng.choice(anns))
+        yield {"anns": anns, "fmt": fmt, "rec": _recv(rng, {"samplerate": rng.choice(EXPORT_SR), "te": rng.choice(["1", "2"]), "path": "rec.wav"}, 0.3),
                "ignore": defaults["ann_ignore"] if d else rng.random() < 0.5, "cast": defaults["ann_cast"] if d else rng.random() < 0.5,
-               "raise_time": defaults["box_raise_time"] if d else rng.random() < 0.5, "opts": rng.choice(TAGS_OPTS),
-               "default_switches": d}
+               "raise_time": defaults["box_raise_time"] if d else rng.random() < 0.5, "opts": _kwv(rng, rng.choice(TAGS_OPTS)),
+               "default_switches": d, "share": rng.random() < 0.5, "clip_build": rng.choice([None, None, None, "copy", "aoef"])}
 
 
 def gen_crow(rng, kind=None, seconds=None, fmax=64):
     kind = kind or rng.choice(["bboxes", "seq", "seq", "bboxes", "stub"])
     path = rng.choice(["rec.wav", "rec.wav", "rec.wav", "other.wav", None])
     if kind == "bboxes":
-        return {"notated_path": path, "bboxes": [gen_bbox(rng, fmax=fmax) for _ in range(rng.randint(0, 4))], "seqs": []}
+        boxes = [gen_bbox(rng, fmax=fmax) for _ in range(rng.randint(0, 4))]
+        if boxes and rng.random() < 0.15:
+            boxes.insert(rng.randrange(len(boxes) + 1), rng.choice(boxes))     # the same box twice
+        return {"notated_path": path, "bboxes": boxes, "seqs": [], "share": rng.random() < 0.5}
     if kind == "seq":
         return {"notated_path": path, "bboxes": [],
-                "seqs": [gen_segments(rng, 4, mode=seconds)]}
+                "seqs": [gen_segments(rng, 4, mode=seconds)], "seq_build": rng.choice(SEQ_BUILDS)}
     return {"notated_path": path, "bboxes": [gen_bbox(rng) for _ in range(rng.randint(0, 2))],
             "seqs": [[gen_segment(rng, valid=1.0, seconds="both") for _ in range(rng.randint(0, 3))]
-                     for _ in range(rng.randint(0, 3))], "stub": True, "as_list": rng.random() < 0.5}
+                     for _ in range(rng.randint(0, 3))], "stub": True, "as_list": rng.random() < 0.5,
+            "stub_kind": rng.choice(STUB_KINDS)}
+
+
+def _seq_case(rng):
+    segs = gen_segments(rng, 6, valid=0.97)
+    c = {"segments": segs, "rec": _recv(rng, {"samplerate": rng.choice(POW2_SR), "te": rng.choice(POW2_TE)}), "adjust": rng.random() < 0.7,
+         "opts": _kwv(rng, rng.choice(LABEL_OPTS))}
+    r = rng.random()
+    if r < 0.2 and segs:
+        segs.insert(rng.randrange(len(segs) + 1), rng.choice(segs))     # the same segment object twice
+        c["share"] = True
+    elif r < 0.5:
+        c["seq_build"] = rng.choice(SEQ_BUILDS)
+    return c
 
 
 def gen_import_annotation(rng, n):
     for _ in range(n):
-        yield {"crow": gen_crow(rng), "rec": {"samplerate": rng.choice(POW2_SR), "te": rng.choice(POW2_TE), "path": "rec.wav"},
-               "adjust": rng.random() < 0.7, "opts": rng.choice(LABEL_OPTS), "extras": _extra(rng)}
+        yield {"crow": gen_crow(rng), "rec": _recv(rng, {"samplerate": rng.choice(POW2_SR), "te": rng.choice(POW2_TE), "path": "rec.wav"}),
+               "adjust": rng.random() < 0.7, "opts": _kwv(rng, rng.choice(LABEL_OPTS)), "extras": _extra(rng)}
 
 
 def gen_import_annotation_load(rng, n):
@@ -1483,6 +1799,492 @@ def gen_rt_annotation(rng, n):
                "raise_time": rng.random() < 0.7, "opts": io, "export_opts": eo}
 
 
+# ====================================================================== histories, positional calls (harness/c10_hist.py)
+OWN_OPTS = [None, None, {"key": "species"}, {"term": TERM_X}, {"fallback": "fb"}, {"term_mapping": [["a", TERM_Y]]},
+            {"key_mapping": [["a", "kk"]], "key": "explicit"}, {"empty_labels": ["b", "NA"]}]
+H_LABELS = ["a", "a", "b", "__empty__", "1"]
+_SINGLE = ("label_to_tags", "segment", "bbox")
+
+
+def gen_tag_histories(rng, n):
+    for _ in range(n):
+        evs, sizes, used = [], [], []
+        for _ in range(rng.randint(3, 8)):
+            if sizes and rng.random() < 0.45:
+                k = rng.randrange(len(sizes))
+                a = rng.randrange(sizes[k] + 1) if rng.random() < 0.15 else rng.randrange(max(1, sizes[k]))
+                evs.append({"edit": [k, a, rng.choice(["corrected", "a", "b", "", "a~"])]})
+                continue
+            kind = rng.choice(c10_hist.KINDS)
+            labels = [rng.choice(H_LABELS) for _ in range(1 if kind in _SINGLE else rng.randint(0, 4))]
+            opts = rng.choice(used) if used and rng.random() < 0.6 else rng.choice(OWN_OPTS)
+            used.append(opts)
+            evs.append({"call": {"kind": kind, "opts": opts, "labels": labels}})
+            empties = (opts or {}).get("empty_labels") or ["__empty__"]
+            sizes.append(sum(1 for x in labels if x not in empties))
+        yield {"events": evs}
+
+
+def enum_tag_histories():
+    """import a label, the caller corrects the returned tag in place, import the label again - for every ordered
+    pair of converters and every option record of the default tag construction"""
+    for k1, k2 in itertools.product(c10_hist.KINDS, repeat=2):
+        for o in OWN_OPTS[1:]:
+            l1 = ["a"] if k1 in _SINGLE else ["a", "b", "a"]
+            l2 = ["a"] if k2 in _SINGLE else ["b", "a"]
+            yield {"events": [{"call": {"kind": k1, "opts": o, "labels": l1}}, {"edit": [0, 0, "a-corrected"]},
+                              {"call": {"kind": k2, "opts": o, "labels": l2}}, {"edit": [1, len(l2) - 1, "again"]},
+                              {"call": {"kind": k1, "opts": o, "labels": l1}}]}
+
+
+def _hist_cases(rng, defaults):
+    cases = []
+
+    def add(op, inputs, n):
+        inputs = list(inputs)
+        for i in (rng.sample(inputs, n) if len(inputs) > n else inputs):
+            i = dict(i)
+            i.pop("extras", None)
+            cases.append({"op": op, "inp": i})
+    add("label_to_tags", enum_label_to_tags(False), 50)
+    add("label_to_tags", enum_label_to_tags_falsy(), 10)
+    add("label_from_tags", enum_label_from_tags(False), 40)
+    add("label_from_tag", enum_label_from_tag(), 12)
+    add("import_segment", gen_import_segment(rng, 40, POW2_TE, POW2_SR), 40)
+    add("import_bbox", gen_import_bbox(rng, 40, POW2_TE), 40)
+    add("import_sequence", ({"segments": gen_segments(rng, 4, valid=0.97), "rec": {"samplerate": rng.choice(POW2_SR), "te": rng.choice(POW2_TE)},
+                             "adjust": rng.random() < 0.7, "opts": rng.choice(LABEL_OPTS)} for _ in range(30)), 30)
+    add("import_annotation", gen_import_annotation(rng, 30), 30)
+    add("export_segment", gen_export_segment(rng, 2, defaults), 30)
+    add("export_bbox", itertools.islice(gen_export_bbox(rng, 1, defaults), 49), 30)
+    add("export_sequence", gen_export_sequence(rng, 30, defaults), 30)
+    add("export_annotation", gen_export_annotation(rng, 30, defaults), 30)
+    return cases
+
+
+def _hist_variants(x, rng, defaults=None):
+    """neighbours of a step: the same element / annotation / tags with other options, another recording, a flipped
+    switch, the plain call with every switch omitted; the same options with another element; the same label through
+    a sibling converter"""
+    op, b = x["op"], x["inp"]
+    out = []
+    d = defaults or {}
+
+    def v(op_=None, **ch):
+        nb = {k: w for k, w in b.items()}
+        nb.update(ch)
+        out.append({"op": op_ or op, "inp": nb})
+    if op == "label_to_tags":
+        for o in rng.sample(LABEL_OPTS, 3):
+            v(opts=o)
+        v(opts=None)
+        v(label=rng.choice(LABELS))
+    elif op == "label_from_tag":
+        v(opts={"label_fn": None, "label_mapping": None, "value_only": rng.choice([None, True, False])})
+        v(tag=rng.choice([TAG_A, TAG_B, TAG_C, TAG_D]))
+        v(separator=rng.choice([None, "=", ""]))
+    elif op == "label_from_tags":
+        for o in rng.sample(TAGS_OPTS, 3):
+            v(opts=o)
+        v(tags=rng.choice(TAG_LISTS))
+        v(tags=list(reversed(b["tags"])))
+    elif op.startswith("import_"):
+        for o in rng.sample(LABEL_OPTS, 2):
+            v(opts=o)
+        v(opts=None)
+        v(adjust=not b["adjust"])
+        v(rec={**b["rec"], "te": rng.choice(POW2_TE)})
+        v(rec={**b["rec"], "samplerate": rng.choice(POW2_SR)})
+        if op == "import_segment":
+            v(segment={**b["segment"], "label": rng.choice(LABELS)})
+            v(segment={**gen_segment(rng), "label": b["segment"]["label"]})
+            out.append({"op": "label_to_tags", "inp": {"label": b["segment"]["label"], "opts": b.get("opts")}})
+            out.append({"op": "import_bbox", "inp": {"bbox": {**gen_bbox(rng), "label": b["segment"]["label"]}, "rec": b["rec"],
+                                                     "adjust": b["adjust"], "opts": b.get("opts")}})
+        elif op == "import_bbox":
+            v(bbox={**b["bbox"], "label": rng.choice(LABELS)})
+            v(bbox={**gen_bbox(rng), "label": b["bbox"]["label"]})
+            out.append({"op": "label_to_tags", "inp": {"label": b["bbox"]["label"], "opts": b.get("opts")}})
+            out.append({"op": "import_segment", "inp": {"segment": {**gen_segment(rng, seconds="both"), "label": b["bbox"]["label"]},
+                                                        "rec": b["rec"], "adjust": b["adjust"], "opts": b.get("opts")}})
+        elif op == "import_sequence":
+            v(segments=list(reversed(b["segments"])))
+            v(segments=b["segments"][:-1])
+            v(segments=[{**s_, "label": rng.choice(LABELS)} for s_ in b["segments"]])
+        elif op == "import_annotation":
+            c = b["crow"]
+            v(crow={**c, "bboxes": list(reversed(c["bboxes"])), "seqs": [list(reversed(q)) for q in c["seqs"]]})
+            v(crow={**c, "bboxes": c["bboxes"][:-1], "seqs": [q[:-1] for q in c["seqs"]]})
+    elif op.startswith("export_"):
+        for o in rng.sample(TAGS_OPTS, 2):
+            v(opts=o)
+        v(opts=None)
+        if op in ("export_segment", "export_bbox"):
+            v(sr=rng.choice(EXPORT_SR))
+            v(cast=not b["cast"], default_cast=False, default_switches=False)
+            if op == "export_bbox":
+                v(raise_time=not b["raise_time"], default_switches=False)
+                if d:
+                    v(cast=d["box_cast"], raise_time=d["box_raise_time"], default_switches=True)
+            elif d:
+                v(cast=d["seg_cast"], default_cast=True)
+            v(ann={**b["ann"], "tags": rng.choice(TAG_LISTS)})
+            v(ann={**gen_ann(rng, None, none_p=0.1), "tags": b["ann"]["tags"]})
+            if b["ann"]["geometry"] is not None:
+                v(ann={**gen_ann(rng, b["ann"]["geometry"]["type"]), "tags": b["ann"]["tags"]})
+        elif op == "export_sequence":
+            v(sr=rng.choice(EXPORT_SR))
+            v(cast=not b["cast"], default_switches=False)
+            v(ignore=not b["ignore"], default_switches=False)
+            if d:
+                v(cast=d["seq_cast"], ignore=d["seq_ignore"], default_switches=True)
+            v(anns=list(reversed(b["anns"])))
+            v(anns=b["anns"] + [gen_ann(rng, rng.choice(["TimeInterval", "LineString", None]), none_p=0.2)])
+            v(anns=[{**a, "tags": rng.choice(TAG_LISTS)} for a in b["anns"]])
+        elif op == "export_annotation":
+            v(fmt=rng.choice(["bbox", "seq"]))
+            v(ignore=not b["ignore"], default_switches=False)
+            v(cast=not b["cast"], default_switches=False)
+            v(raise_time=not b["raise_time"], default_switches=False)
+            if d:
+                v(ignore=d["ann_ignore"], cast=d["ann_cast"], raise_time=d["box_raise_time"], default_switches=True)
+                v(ignore=d["ann_ignore"], cast=d["ann_cast"], raise_time=d["box_raise_time"], default_switches=True, fmt="bbox",
+                  anns=b["anns"] + [{"geometry": {"type": "TimeInterval", "coordinates": ["1", "2"]}, "tags": [TAG_A]}])
+            v(rec={**b["rec"], "samplerate": rng.choice(EXPORT_SR)})
+            v(anns=list(reversed(b["anns"])))
+            v(anns=b["anns"] + [gen_ann(rng, rng.choice(["BoundingBox", "TimeInterval", "Point", None]), none_p=0.2)])
+    return out
+
+
+def _stage_histories(ctx, defaults):
+    from .. import history
+    rng = ctx.rng
+    cases = _hist_cases(rng, defaults)
+    hs = history.sequences(rng, cases, ctx.budget(420, 3000), variants=lambda x, r: _hist_variants(x, r, defaults),
+                           reuse_hows=c10_hist.REUSE, poison=True)
+    for h in hs:
+        for st in h["seq"]:
+            ctx.tally("history:" + st["inp"]["op"].split("_")[0] + ":" + (st.get("reuse") or "fresh") + ("+poison" if st.get("poison") else ""))
+    c10_hist.keep_self_contained(ctx, OPS["history"], ctx.run_cases(OPS["history"], hs))
+    c = _count(ctx, "enum:tag_history", enum_tag_histories())
+    fails = ctx.run_cases(OPS["tag_history"], c)
+    ctx.exhaustive["tag histories"] = (f"{len(c)} histories: import a label, correct the returned tag in place, import the label again, "
+                                       "for every ordered pair of the six import routes x every option record of the default tag construction")
+    fails += ctx.run_cases(OPS["tag_history"], _count(ctx, "tag_history:random", gen_tag_histories(rng, ctx.budget(300, 2500))))
+    c10_hist.keep_self_contained(ctx, OPS["tag_history"], fails)
+    c10_hist.fresh_modules()          # nothing the last history left behind reaches the stages that follow
+
+
+def gen_positional(rng, defaults, sigs, reps):
+    """every public converter x every split between positional and keyword passing x a few cases each"""
+    pools = {
+        "label_to_tags": lambda: rng.choice([{"label": rng.choice(LABELS), "opts": o} for o in LABEL_OPTS]),
+        "label_from_tag": lambda: rng.choice(list(enum_label_from_tag())),
+        "label_from_tags": lambda: {"tags": rng.choice(TAG_LISTS), "opts": rng.choice(TAGS_OPTS)},
+        "segment_to_annotation": lambda: next(gen_import_segment(rng, 1, POW2_TE, POW2_SR)),
+        "bbox_to_annotation": lambda: next(gen_import_bbox(rng, 1, POW2_TE)),
+        "sequence_to_annotations": lambda: {"segments": gen_segments(rng, 4, valid=0.97), "rec": {"samplerate": rng.choice(POW2_SR), "te": rng.choice(POW2_TE)},
+                                            "adjust": rng.random() < 0.6, "opts": rng.choice(LABEL_OPTS)},
+        "annotation_to_clip_annotation": lambda: next(gen_import_annotation(rng, 1)),
+        "segment_from_annotation": lambda: {"ann": gen_ann(rng, None, none_p=0.05), "sr": rng.choice(EXPORT_SR), "cast": rng.choice([True, False, None]),
+                                            "opts": rng.choice(TAGS_OPTS)},
+        "bbox_from_annotation": lambda: {"ann": gen_ann(rng, None, none_p=0.05), "sr": rng.choice(EXPORT_SR), "cast": rng.random() < 0.5,
+                                         "raise_time": rng.random() < 0.5, "opts": rng.choice(TAGS_OPTS)},
+        "sequence_from_annotations": lambda: {**next(gen_export_sequence(rng, 1, defaults)), "default_switches": False},
+        "annotation_from_clip_annotation": lambda: {**next(gen_export_annotation(rng, 1, defaults)), "default_switches": False},
+    }
+    for fn, order in sigs.items():
+        fill = c10_hist.fill_values(fn, defaults)
+        for k in range(len(order) + 1):
+            for _ in range(reps):
+                base = dict(pools[fn]())
+                base.pop("extras", None)
+                if fn == "segment_from_annotation" and base["cast"] is None:
+                    base["default_cast"] = True
+                    base["cast"] = defaults["seg_cast"]
+                yield {"fn": fn, "k": k, "order": order, "fill": fill, "base": base,
+                       "pass_fill": rng.random() < 0.3, "kw_order": rng.choice(["given", "reversed"])}
+
+
+def _stage_positional(ctx, defaults):
+    sigs = {e["fn"]: e["params"] for e in ctx.model("signatures", {})}
+    c = _count(ctx, "positional:every split", gen_positional(ctx.rng, defaults, sigs, ctx.budget(4, 20)))
+    ctx.run_cases(OPS["positional"], c)
+    ctx.exhaustive["positional calls"] = ("every public converter x every number of leading positional arguments (0 .. all parameters of the "
+                                          "Lean table `signatures`), the other arguments by keyword (in the given or the reversed order)")
+
+
+# ====================================================================== option x input-class products (HISTORIES.md section 3)
+ELEMENT_CLASSES = list(gen_geom.TYPES) + ["none", "flat_line", "vertical_line", "zero_width_box", "zero_height_box", "zero_interval",
+                                          "single_multipoint"]
+_DEGENERATE = {
+    "flat_line": {"type": "LineString", "coordinates": [["1", "2"], ["3", "2"]]},           # low == high: crowsetta refuses the box
+    "vertical_line": {"type": "LineString", "coordinates": [["1", "2"], ["1", "3"]]},       # onset == offset
+    "zero_width_box": {"type": "BoundingBox", "coordinates": ["1", "2", "1", "3"]},
+    "zero_height_box": {"type": "BoundingBox", "coordinates": ["1", "2", "3", "2"]},
+    "zero_interval": {"type": "TimeInterval", "coordinates": ["3/2", "3/2"]},
+    "single_multipoint": {"type": "MultiPoint", "coordinates": [["1", "2"]]},
+}
+
+
+def _class_ann(rng, cls, tags=None):
+    if cls in gen_geom.TYPES:
+        a = gen_ann(rng, cls)
+    elif cls == "none":
+        a = {"geometry": None, "tags": rng.choice(TAG_LISTS)}
+    else:
+        a = {"geometry": _DEGENERATE[cls], "tags": rng.choice(TAG_LISTS)}
+    if tags is not None:
+        a = {**a, "tags": tags}
+    return a
+
+
+def enum_export_products(rng, defaults):
+    """every exporter x every switch combination x every class of sound event (the nine geometry types, no geometry,
+    geometries whose bounds crowsetta refuses), alone and between two convertible events"""
+    ok_box = {"geometry": {"type": "BoundingBox", "coordinates": ["1/2", "1", "3/2", "2"]}, "tags": [TAG_A]}
+    ok_int = {"geometry": {"type": "TimeInterval", "coordinates": ["1/2", "3/2"]}, "tags": [TAG_B]}
+    for cls in ELEMENT_CLASSES:
+        for cast, rt in itertools.product((True, False), repeat=2):
+            yield "export_bbox", {"ann": _class_ann(rng, cls), "sr": rng.choice(EXPORT_SR), "cast": cast, "raise_time": rt, "opts": rng.choice(TAGS_OPTS)}
+        for cast in (True, False):
+            yield "export_segment", {"ann": _class_ann(rng, cls), "sr": rng.choice(EXPORT_SR), "cast": cast, "opts": rng.choice(TAGS_OPTS),
+                                     "default_cast": False}
+        for cast, ignore, around in itertools.product((True, False), (True, False), (False, True)):
+            x = _class_ann(rng, cls)
+            yield "export_sequence", {"anns": [ok_int, x, ok_box, ok_int] if around else [x], "sr": rng.choice(EXPORT_SR), "cast": cast,
+                                      "ignore": ignore, "opts": rng.choice(TAGS_OPTS), "default_switches": False}
+        for fmt, cast, ignore, rt, around in itertools.product(("bbox", "seq", "foo"), (True, False), (True, False), (True, False), (False, True)):
+            x = _class_ann(rng, cls)
+            yield "export_annotation", {"anns": [ok_box, x, ok_int, ok_box] if around else [x], "fmt": fmt,
+                                        "rec": {"samplerate": rng.choice(EXPORT_SR), "te": rng.choice(["1", "2"]), "path": "rec.wav"},
+                                        "ignore": ignore, "cast": cast, "raise_time": rt, "opts": rng.choice(TAGS_OPTS), "default_switches": False}
+        # the defaults of every exporter on every class (switches omitted)
+        yield "export_sequence", {"anns": [ok_int, _class_ann(rng, cls)], "sr": "8", "cast": defaults["seq_cast"], "ignore": defaults["seq_ignore"],
+                                  "opts": None, "default_switches": True}
+        for fmt in ("bbox", "seq"):
+            yield "export_annotation", {"anns": [ok_box, _class_ann(rng, cls), ok_int], "fmt": fmt, "rec": {"samplerate": "8", "te": "1", "path": "rec.wav"},
+                                        "ignore": defaults["ann_ignore"], "cast": defaults["ann_cast"], "raise_time": defaults["box_raise_time"],
+                                        "opts": None, "default_switches": True}
+    # label options x tag lists x every exporter
+    g_box = {"type": "BoundingBox", "coordinates": ["1/2", "1", "3/2", "2"]}
+    g_int = {"type": "TimeInterval", "coordinates": ["1/2", "3/2"]}
+    for o, tags in itertools.product(TAGS_OPTS[1:], TAG_LISTS + [[TAG_A], [TAG_B]]):
+        yield "export_segment", {"ann": {"geometry": g_int, "tags": tags}, "sr": "8", "cast": True, "opts": o, "default_cast": False}
+        yield "export_bbox", {"ann": {"geometry": g_box, "tags": tags}, "sr": "8", "cast": True, "raise_time": True, "opts": o}
+        yield "export_sequence", {"anns": [{"geometry": g_int, "tags": tags}, {"geometry": g_int, "tags": [TAG_B]}], "sr": "8", "cast": True,
+                                  "ignore": rng.random() < 0.5, "opts": o, "default_switches": False}
+        fmt = rng.choice(["bbox", "seq"])
+        yield "export_annotation", {"anns": [{"geometry": g_box if fmt == "bbox" else g_int, "tags": tags}], "fmt": fmt,
+                                    "rec": {"samplerate": "8", "te": "1", "path": "rec.wav"}, "ignore": rng.random() < 0.5, "cast": True,
+                                    "raise_time": True, "opts": o, "default_switches": False}
+
+
+PRESENCE = list(itertools.product((True, False), repeat=4))
+
+
+def enum_import_products(rng):
+    """every importer x every label option record x every label; every presence pattern of the four time fields x
+    adjust x expansion factor; annotation level: boxes / one sequence / both / a list of sequences x path x adjust"""
+    rec0 = {"samplerate": "8", "te": "2", "path": "rec.wav"}
+    seg0 = {"onset_s": "1/2", "offset_s": "3/2", "onset_sample": 4, "offset_sample": 12}
+    box0 = {"onset": "1/2", "offset": "3/2", "low_freq": "1", "high_freq": "2"}
+    for o, lab in itertools.product(LABEL_OPTS[1:], LABELS):
+        ex = _extra(rng)
+        adj = rng.random() < 0.6
+        yield "import_segment", {"segment": {**seg0, "label": lab}, "rec": rec0, "adjust": adj, "opts": o, "extras": ex}
+        yield "import_bbox", {"bbox": {**box0, "label": lab}, "rec": rec0, "adjust": adj, "opts": o, "extras": ex}
+        yield "import_sequence", {"segments": [{**seg0, "label": lab}, {**seg0, "label": "b"}, {**seg0, "label": lab}], "rec": rec0, "adjust": adj, "opts": o}
+        yield "import_annotation", {"crow": {"notated_path": "rec.wav", "bboxes": [{**box0, "label": lab}, {**box0, "label": "a"}], "seqs": []},
+                                    "rec": rec0, "adjust": adj, "opts": o, "extras": ex}
+        yield "import_annotation", {"crow": {"notated_path": "rec.wav", "bboxes": [], "seqs": [[{**seg0, "label": "a"}, {**seg0, "label": lab}]]},
+                                    "rec": rec0, "adjust": adj, "opts": o, "extras": ex}
+        yield "import_annotation_load", {"crow": {"notated_path": WAV, "bboxes": [{**box0, "label": lab}], "seqs": []}, "file_sr": "8",
+                                         "te": rng.choice([None, "2"]), "adjust": adj, "opts": o, "extras": ex}
+    for (po, pe, pn, pm), adjust, te, sr in itertools.product(PRESENCE, (True, False), ("1", "2", "1/2", "4"), ("8", "256")):
+        seg = {"label": "a", "onset_s": "3/2" if po else None, "offset_s": "11/4" if pe else None,
+               "onset_sample": 5 if pn else None, "offset_sample": 40 if pm else None}
+        yield "import_segment", {"segment": seg, "rec": {"samplerate": sr, "te": te}, "adjust": adjust, "opts": None, "extras": None}
+    shapes = [
+        {"bboxes": [{**box0, "label": "a"}, {**box0, "onset": "1", "label": "b"}], "seqs": []},
+        {"bboxes": [], "seqs": [[{**seg0, "label": "a"}, {**seg0, "onset_s": "1", "label": "b"}]]},
+        {"bboxes": [], "seqs": []},
+        {"bboxes": [{**box0, "label": "a"}], "seqs": [[{**seg0, "label": "b"}]], "stub": True},
+        {"bboxes": [{**box0, "label": "a"}], "seqs": [[{**seg0, "label": "b"}], [], [{**seg0, "label": "a"}, {**seg0, "label": "k:v"}]], "stub": True, "as_list": True},
+        {"bboxes": [], "seqs": [[{**seg0, "label": "b"}]], "stub": True, "as_list": True},
+    ]
+    for sh, path, adjust, te in itertools.product(shapes, ("rec.wav", "other.wav", None), (True, False), ("1", "2", "1/4")):
+        kinds = STUB_KINDS if sh.get("stub") else [None]
+        for kind in kinds:
+            crow = {"notated_path": path, **sh}
+            if kind:
+                crow["stub_kind"] = kind
+            yield "import_annotation", {"crow": crow, "rec": {"samplerate": "8", "te": te, "path": "rec.wav"}, "adjust": adjust,
+                                        "opts": rng.choice(LABEL_OPTS), "extras": _extra(rng)}
+
+
+def _run_grouped(ctx, pairs, tag):
+    by = {}
+    for op, inp in pairs:
+        by.setdefault(op, []).append(inp)
+    n = 0
+    for op, inputs in by.items():
+        ctx.run_cases(OPS[op], inputs)
+        ctx.tally(f"{tag}:{op}", len(inputs))
+        n += len(inputs)
+    return n
+
+
+def _stage_products(ctx, defaults):
+    n = _run_grouped(ctx, enum_export_products(ctx.rng, defaults), "product")
+    ctx.exhaustive["export switches x event classes"] = (
+        f"{n} cases: every exporter x every combination of its switches (cast, raise_on_time_geometries, ignore_errors, annotation_fmt incl. an "
+        "unknown one) x 16 classes of sound event (nine geometry types, no geometry, a flat / vertical line, a zero-width / zero-height box, a "
+        "zero-length interval, a one-point MultiPoint), alone and between convertible events, plus the defaults; every export label option "
+        "record x tag list x exporter")
+    n = _run_grouped(ctx, enum_import_products(ctx.rng), "product")
+    ctx.exhaustive["import options x importers"] = (
+        f"{n} cases: every label option record x label x importer (segment, box, sequence, annotation with boxes / with a sequence, recording "
+        "loaded from the notated path); 16 presence patterns of the time fields x adjust x expansion factor x samplerate; annotation shapes "
+        "(boxes, one sequence, empty, boxes and a sequence, a list of sequences) x notated path (matching, other, none) x adjust x factor x "
+        "stand-in kind")
+    # the option containers: the cascades on other legitimate mappings / keyword orders
+    cases = [{**c, "opts": {**c["opts"], "_kw": KW_KINDS[i % len(KW_KINDS)]}} for i, c in enumerate(enum_label_to_tags(False)) if i % 3 == 0]
+    ctx.run_cases(OPS["label_to_tags"], _count(ctx, "enum:label_to_tags:containers", cases))
+    cases = [{**c, "opts": {**c["opts"], "_kw": KW_KINDS[i % len(KW_KINDS)]}} for i, c in enumerate(enum_label_from_tags_falsy()) if i % 2 == 0]
+    ctx.run_cases(OPS["label_from_tags"], _count(ctx, "enum:label_from_tags:containers", cases))
+
+
+# ====================================================================== boundaries (HISTORIES.md section 4)
+def _f(x):
+    """the exact value of a binary64 number, as the protocol string"""
+    return rat(float(x))
+
+
+NEAR_ONE = [1 + 2.0 ** -k for k in (10, 20, 30, 40, 52)] + [1 - 2.0 ** -k for k in (10, 20, 30, 40, 53)] + \
+           [1 + 1e-6, 1 - 1e-6, 1 + 1e-9, 1 - 1e-9, 1 + 1e-12, 1 - 1e-12]
+MAGS_T = [2.0 ** -20, 0.75, 1000.5, 2.0 ** 20 + 0.5]
+MAGS_F = [0.5, 1000.25, 4.0e6]
+
+
+def enum_boundaries_import():
+    """expansion factors at tolerance-sized distances from 1 (where the adjustment is switched on), small and large
+    times / frequencies: one division or one multiplication of exact operands (round-once)"""
+    for te, adjust in itertools.product(NEAR_ONE, (True, False)):
+        for t in MAGS_T:
+            seg = {"label": "a", "onset_s": _f(t), "offset_s": _f(t * 2), "onset_sample": None, "offset_sample": None}
+            yield "import_segment_r1", {"segment": seg, "rec": {"samplerate": "44100", "te": _f(te)}, "adjust": adjust, "opts": None, "extras": None}
+            for f in MAGS_F:
+                box = {"onset": _f(t), "offset": _f(t * 2), "low_freq": _f(f), "high_freq": _f(f * 1.25), "label": "a"}
+                yield "import_bbox_r1", {"bbox": box, "rec": {"samplerate": "44100", "te": _f(te)}, "adjust": adjust, "opts": None, "extras": None}
+        seg = {"label": "a", "onset_s": None, "offset_s": None, "onset_sample": 44100, "offset_sample": 88201}
+        yield "import_segment_tol", {"segment": seg, "rec": {"samplerate": "44100", "te": _f(te)}, "adjust": adjust, "opts": None, "extras": None}
+
+
+def enum_boundaries_nyquist():
+    """upper frequencies at tolerance-sized distances (relative 1e-6 .. 1e-12, one unit in the last place) on both
+    sides of samplerate / 2, at small and large sample rates; lower frequencies at and above it (exact: no arithmetic
+    but the halving of an integer)"""
+    import math
+    for sr in (7, 8, 44100, 96000, 1 << 20, 384000):
+        nyq = sr / 2
+        his = [nyq, math.nextafter(nyq, 0), math.nextafter(nyq, math.inf)]
+        for rel in (1e-6, 1e-8, 1e-9, 1e-10, 1e-12):
+            his += [nyq * (1 - rel), nyq * (1 + rel)]
+        los = [0.0, nyq / 2, math.nextafter(nyq, 0), nyq, math.nextafter(nyq, math.inf)]
+        for hi, lo in itertools.product(his, los):
+            if lo > hi or hi > MAXF:
+                continue
+            for ty in ("BoundingBox", "LineString"):
+                g = ({"type": ty, "coordinates": [_f(1), _f(lo), _f(2), _f(hi)]} if ty == "BoundingBox" else
+                     {"type": ty, "coordinates": [[_f(1), _f(lo)], [_f(2), _f(hi)]]})
+                yield "export_bbox", {"ann": {"geometry": g, "tags": [TAG_A]}, "sr": str(sr), "cast": True, "raise_time": True,
+                                      "opts": {"value_only": True}}
+        for cast_rt in ((True, False),):
+            g = {"type": "TimeInterval", "coordinates": ["1", "2"]}
+            yield "export_bbox", {"ann": {"geometry": g, "tags": [TAG_A]}, "sr": str(sr), "cast": cast_rt[0], "raise_time": cast_rt[1], "opts": None}
+
+
+LATTICE = [(100, 100, 300), (3, 3, 200), (10, 10, 200), (44100, 44100, 400), (22050, 22050, 300), (48000, 1000, 300), (44100, 100, 300),
+           (8000, 3, 100)]
+
+
+def enum_lattice():
+    """every point of a few non-dyadic time axes (step 1/den seconds) through import and export at a sample rate: the
+    sample index is floor(float(time) * samplerate) of the float product (free-mode monitor), also far from zero"""
+    for sr, den, n in LATTICE:
+        for base in (0, 86400 * den):
+            for k in range(0, n, 2):
+                a, b = (base + k) / den, (base + k + 1) / den
+                yield {"segment": {"label": "a", "onset_s": _f(a), "offset_s": _f(b), "onset_sample": None, "offset_sample": None},
+                       "rec": {"samplerate": str(sr), "te": "1", "path": "rec.wav"}, "adjust": True, "cast": True, "opts": None,
+                       "export_opts": {"value_only": True}, "free": True}
+
+
+SIZES = [16, 17, 256, 257, 1024, 1025]
+
+
+def enum_sizes(rng):
+    """lists just below / at / above the sizes where an implementation could switch strategy (> 16, > 256, >= 1024)"""
+    labels = ["a", "b", "__empty__", "k:v", "1"]
+    for n in SIZES:
+        segs = [{"label": labels[i % 5], "onset_s": rat(Fraction(i, 4)), "offset_s": rat(Fraction(i, 4) + Fraction(1, 8)),
+                 "onset_sample": None, "offset_sample": None} for i in range(n)]
+        boxes = [{"label": labels[(i + 1) % 5], "onset": rat(Fraction(i, 4)), "offset": rat(Fraction(i, 4) + Fraction(1, 8)),
+                  "low_freq": rat(Fraction(i % 7, 2)), "high_freq": rat(Fraction(i % 7, 2) + 1)} for i in range(n)]
+        rec = {"samplerate": "8", "te": "2", "path": "rec.wav"}
+        o = rng.choice([None, {"key": "species"}, {"term_mapping": [["a", TERM_Y]]}])
+        yield "import_sequence", {"segments": segs, "rec": rec, "adjust": True, "opts": o}
+        yield "import_annotation", {"crow": {"notated_path": "rec.wav", "bboxes": boxes, "seqs": []}, "rec": rec, "adjust": True, "opts": o, "extras": None}
+        yield "import_annotation", {"crow": {"notated_path": "rec.wav", "bboxes": [], "seqs": [segs]}, "rec": rec, "adjust": False, "opts": o, "extras": None}
+        # export: convertible events with an unconvertible one at the first, a middle and the last position
+        def ev(i):
+            if i in (0, n // 2, n - 1):
+                return {"geometry": None if i else {"type": "Point", "coordinates": ["1", "2"]}, "tags": [TAG_A]}
+            return {"geometry": {"type": "TimeInterval", "coordinates": [rat(Fraction(i, 4)), rat(Fraction(i, 4) + Fraction(1, 8))]},
+                    "tags": [ktag("k1", "v%d" % i)]}
+        def bx(i):
+            if i in (0, n // 2, n - 1):
+                return {"geometry": {"type": "TimeStamp", "coordinates": "1"}, "tags": [TAG_A]}
+            return {"geometry": {"type": "BoundingBox", "coordinates": [rat(Fraction(i, 4)), "1", rat(Fraction(i, 4) + Fraction(1, 8)), "3"]},
+                    "tags": [ktag("k1", "v%d" % i)]}
+        anns = [ev(i) for i in range(n)]
+        for ignore in (True, False):
+            yield "export_sequence", {"anns": anns, "sr": "8", "cast": False, "ignore": ignore, "opts": {"value_only": True}, "default_switches": False}
+        yield "export_annotation", {"anns": [bx(i) for i in range(n)], "fmt": "bbox", "rec": {"samplerate": "8", "te": "1", "path": "rec.wav"},
+                                    "ignore": True, "cast": True, "raise_time": True, "opts": {"value_only": True}, "default_switches": False}
+        yield "export_annotation", {"anns": anns, "fmt": "seq", "rec": {"samplerate": "8", "te": "1", "path": "rec.wav"},
+                                    "ignore": True, "cast": True, "raise_time": True, "opts": {"select_by_key": "k1"}, "default_switches": False}
+        # many tags / many mapping entries / many empty labels
+        tags = [ktag("k%d" % (i % 9), "v%d" % i) for i in range(n)]
+        rep = [ktag("k%d" % (i % 3), "v%d" % (i % 7)) for i in range(n)]          # many repeated tags: order and multiplicity are pinned
+        for o in ({}, {"index": n + 1}, {"index": -n - 1}, {"index": n - 1}, {"select_by_key": "k8"}, {"value_only": True, "separator": "|"}):
+            yield "label_from_tags", {"tags": tags, "opts": o}
+            yield "label_from_tags", {"tags": rep, "opts": o}
+        big = [["l%d" % i, "key%d" % i] for i in range(n)]
+        for lab in ("l0", "l%d" % (n - 1), "l%d" % n):
+            yield "label_to_tags", {"label": lab, "opts": {"key_mapping": big, "key": "explicit"}}
+            yield "label_to_tags", {"label": lab, "opts": {"empty_labels": [b[0] for b in big[1:]]}}
+            yield "label_to_tags", {"label": lab, "opts": {"term_mapping": [[b[0], TERM_X if i % 2 else TERM_Y] for i, b in enumerate(big)],
+                                                           "tag_mapping": [[b[0], {"single": TAG_A}] for b in big[n // 2:]]}}
+
+
+def _stage_boundaries(ctx):
+    n = _run_grouped(ctx, enum_boundaries_import(), "boundary")
+    ctx.exhaustive["expansion factor near 1"] = (f"{n} cases: time_expansion = 1 +- 2^-k (k = 10 .. 53) and 1 +- 1e-6 / 1e-9 / 1e-12, adjust on and off, "
+                                                 "times 2^-20 .. 2^20 s, frequencies 0.5 Hz .. 4 MHz (round-once), the sample path with tolerance")
+    n = _run_grouped(ctx, enum_boundaries_nyquist(), "boundary")
+    ctx.exhaustive["Nyquist boundary"] = (f"{n} cases: upper frequency = samplerate/2 x (1 +- 1e-6 .. 1e-12), +- one unit in the last place, lower "
+                                          "frequency 0 .. just above it, sample rates 7 .. 2^20, boxes and lines (exact)")
+    c = _count(ctx, "boundary:lattice", enum_lattice())
+    ctx.run_cases(OPS["roundtrip_segment_free"], c)
+    ctx.exhaustive["sample-index lattice"] = (f"{len(c)} round trips covering every point k/den of eight non-dyadic time axes (den = 100, 3, 10, 44100, "
+                                              "22050, 1000), near zero and one day in: sample = floor(float(time) * samplerate)")
+    n = _run_grouped(ctx, enum_sizes(ctx.rng), "size")
+    ctx.exhaustive["size thresholds"] = (f"{n} cases: sequences / box lists / event lists / tag lists / mappings / empty-label lists of "
+                                         f"{', '.join(map(str, SIZES))} entries (unconvertible events first, in the middle and last)")
+
+
 # ====================================================================== run
 def _count(ctx, key, cases):
     cases = list(cases)
@@ -1539,9 +2341,7 @@ def _stage_import(ctx):
     ctx.run_cases(OPS["import_bbox"], _count(ctx, "import_bbox:pow2", gen_import_bbox(rng, n, POW2_TE)))
     ctx.run_cases(OPS["import_bbox_r1"], _count(ctx, "import_bbox:decimal te", gen_import_bbox(rng, n // 2, DEC_TE)))
     ctx.run_cases(OPS["import_sequence"], [
-        {"segments": gen_segments(rng, 6, valid=0.97),
-         "rec": {"samplerate": rng.choice(POW2_SR), "te": rng.choice(POW2_TE)}, "adjust": rng.random() < 0.7,
-         "opts": rng.choice(LABEL_OPTS)} for _ in range(ctx.budget(800, 4000))])
+        _seq_case(rng) for _ in range(ctx.budget(800, 4000))])
     ctx.run_cases(OPS["import_annotation"], gen_import_annotation(rng, ctx.budget(800, 4000)))
     ctx.run_cases(OPS["import_annotation_load"], _count(ctx, "import_annotation:recording loaded from the notated path",
                                                        gen_import_annotation_load(rng, ctx.budget(300, 1500))))
@@ -1569,19 +2369,36 @@ def _stage_roundtrip(ctx):
 
 
 def run(ctx):
-    ctx.stage("corpus", ctx.run_corpus, OPS)
+    import time
+    times = {}
+
+    def stage(name, fn, *a):
+        t0 = time.time()
+        r = ctx.stage(name, fn, *a)
+        times[name] = round(time.time() - t0, 1)
+        return r
+    stage("corpus", ctx.run_corpus, OPS)
     # ties 1 and 1b
-    ctx.stage("keyword-defaults", _defaults_obligation, ctx)
-    ctx.stage("symbolic-ties", _symbolic_ties, ctx)
-    ctx.stage("discharge", ctx.discharge, ["SoundeventModel.Crowsetta", "SoundeventModel.Tactics"])
+    stage("keyword-defaults", _defaults_obligation, ctx)
+    stage("positional-signatures", _signatures_obligation, ctx)
+    stage("symbolic-ties", _symbolic_ties, ctx)
+    stage("discharge", ctx.discharge, ["SoundeventModel.Crowsetta", "SoundeventModel.CrowsettaHist", "SoundeventModel.Tactics"])
     defaults = _model_defaults(ctx)
     # (a) the abstracted option space of both cascades, exhaustively
-    ctx.stage("cascades", _stage_cascades, ctx)
+    stage("cascades", _stage_cascades, ctx)
     # (b) numeric correspondence through real crowsetta objects
-    ctx.stage("import", _stage_import, ctx)
-    ctx.stage("export", _stage_export, ctx, defaults)
+    stage("import", _stage_import, ctx)
+    stage("export", _stage_export, ctx, defaults)
     # (c) the round trip through real crowsetta objects: correspondence + monitor
-    ctx.stage("roundtrip", _stage_roundtrip, ctx)
+    stage("roundtrip", _stage_roundtrip, ctx)
+    # (d) histories in one process, the store semantics of returned tags, positional calls (HISTORIES.md)
+    stage("histories", _stage_histories, ctx, defaults)
+    stage("positional", _stage_positional, ctx, defaults)
+    # (e) option x input-class products, numeric and size boundaries (HISTORIES.md sections 3 and 4)
+    stage("products", _stage_products, ctx, defaults)
+    stage("boundaries", _stage_boundaries, ctx)
+    stage("self-contained-replays", c10_hist.drop_not_self_contained, ctx)
+    ctx.note("stage seconds: " + ", ".join(f"{k} {v}" for k, v in times.items()))
 
 
 def search(ctx, failures):
@@ -1604,6 +2421,9 @@ def search(ctx, failures):
     if ops & {"export_bbox", "export_annotation", "defaults"} or not ops & set(OPS):
         ctx.run_cases(OPS["export_bbox"], gen_export_bbox(rng, 60, defaults))
         ctx.run_cases(OPS["export_annotation"], gen_export_annotation(rng, 2000, defaults))
+    if "positional" in ops:
+        sigs = {e["fn"]: e["params"] for e in ctx.model("signatures", {})}
+        ctx.run_cases(OPS["positional"], gen_positional(rng, defaults, sigs, 12))
     if "defaults" in ops:
         ctx.run_cases(OPS["export_segment"], gen_export_segment(rng, 40, defaults))
         ctx.run_cases(OPS["export_sequence"], gen_export_sequence(rng, 2000, defaults))
